@@ -86,7 +86,7 @@ func (w *world) oracle(env string, before, after *Snapshot, op string, minted *b
 		// holding pool = Σ pending DEX orders and deposits (next ∪ locked)
 		hold := new(big.Int).SetUint64(after.pool(c + holdingAdd).Amount)
 		if pend := after.pending(c); hold.Cmp(pend) != 0 {
-			w.o.Fail("C20:holding-ne-pending", fmt.Sprintf("env %s chain %d after %q: holding pool %s, pending %s", env, c, op, hold, pend), w.replay())
+			w.o.Fail("C20:holding-ne-pending"+w.tag, fmt.Sprintf("env %s chain %d after %q: holding pool %s, pending %s", env, c, op, hold, pend), w.replay())
 		}
 		// Σ points = total
 		lp := after.pool(c + liquidityAdd)
@@ -443,6 +443,56 @@ func newWorld(o *drv.Out, id string) *world {
 	return w
 }
 
+func (w *world) subsidy(env string, a []byte, poolID, amount uint64, opcode []byte) string {
+	op := fmt.Sprintf("subsidy %s %d %d %s", hx(a), poolID, amount, hx(opcode))
+	st, _ := w.step(env, op, 0, func(sm *fsm.StateMachine) lib.ErrorI {
+		msg := &fsm.MessageSubsidy{Address: a, ChainId: poolID, Amount: amount, Opcode: opcode}
+		if err := msg.Check(); err != nil {
+			return err
+		}
+		return sm.HandleMessage(msg)
+	})
+	return st
+}
+
+// subsidyCase: MessageSubsidy.Check does not validate ChainId and HandleMessageSubsidy credits pools[ChainId]. The family
+// sends subsidies to every pool-id form of a chain that has open sell orders and pending DEX operations (x, x+Escrow,
+// x+Holding, x+Liquidity), to MaxChainId and just above, to the DAO pool, to the chain's own fee pool and to 2^64-1, and
+// evaluates the identities of C20 on the real state after each one.
+func (w *world) subsidyCase(k int) {
+	w.tag = ":subsidy-to-pool-id"
+	w.chains = []uint64{2, 3}
+	w.initEnv("R", 1, 1, 0, 2)
+	a, b := w.addrs[0], w.addrs[1]
+	w.fund("R", a, 1_000_000)
+	w.fund("R", b, 1_000_000)
+	x := w.chains[k%2]
+	id1, id2 := w.freshID(), w.freshID()
+	w.create("R", x, id1, a, uint64(100+w.r.Intn(1000)), 7, []byte{9}, nil)
+	w.create("R", x, id2, b, uint64(100+w.r.Intn(1000)), 7, []byte{9}, nil)
+	w.setpool("R", x+liquidityAdd, 50_000, 20, []*lib.PoolPoints{{Address: dead, Points: 10}, {Address: a, Points: 10}})
+	w.limit("R", x, a, uint64(10+w.r.Intn(500)), 1, w.freshID())
+	w.deposit("R", x, b, uint64(10+w.r.Intn(500)), w.freshID())
+	ids := []uint64{x, x + escrowAdd, x + holdingAdd, x + liquidityAdd, 16383, 16384, 16383 + escrowAdd, 131071, 1, ^uint64(0), 0}
+	w.r.Shuffle(len(ids), func(i, j int) { ids[i], ids[j] = ids[j], ids[i] })
+	for _, id := range ids {
+		st := w.subsidy("R", w.addrs[w.r.Intn(2)], id, uint64(1+w.r.Intn(1000)), nil)
+		switch {
+		case id == x+escrowAdd || id == x+holdingAdd:
+			w.o.Count("subsidy:to-escrow-or-holding-pool:" + st)
+		case id == x+liquidityAdd:
+			w.o.Count("subsidy:to-liquidity-pool:" + st)
+		default:
+			w.o.Count("subsidy:other-id:" + st)
+		}
+	}
+	// the surplus cannot be taken out again by the order/DEX operations
+	w.del("R", x, id1)
+	w.swaps("R", x, &lib.Orders{LockOrders: []*lib.LockOrder{{OrderId: id2, BuyerReceiveAddress: a, BuyerSendAddress: []byte{1}, BuyerChainDeadline: 9}}, CloseOrders: [][]byte{id2}})
+	w.subsidy("R", a, x, 1, drv.Bytes(w.r, 101)) // opcode too long: the one thing Check rejects
+	w.subsidy("R", drv.Bytes(w.r, 19), x, 1, nil)
+}
+
 // closeOverflowCase: CloseOrder runs inside HandleCommitteeSwaps, which swallows errors and never rolls back, so its
 // up-front check `buyer balance > MaxUint64 - AmountForSale` is the only thing that keeps a close atomic. The family
 // puts the buyer's balance on every boundary of that check — and on the boundaries one would get by comparing with
@@ -609,6 +659,24 @@ func Run(o *drv.Out) {
 		w.cappedCase(12)
 		w.close()
 	}
+	nLF := 12
+	if o.Tier == "thorough" {
+		nLF = 80
+	}
+	for i := 0; i < nLF; i++ {
+		w := newWorld(o, fmt.Sprintf("lfmatch-%d", i))
+		w.lfMatchCase()
+		w.close()
+	}
+	nSub := 4
+	if o.Tier == "thorough" {
+		nSub = 20
+	}
+	for i := 0; i < nSub; i++ {
+		w := newWorld(o, fmt.Sprintf("subsidy-%d", i))
+		w.subsidyCase(i)
+		w.close()
+	}
 	nClose := 45
 	if o.Tier == "thorough" {
 		nClose = 180
@@ -641,4 +709,5 @@ func Run(o *drv.Out) {
 		w.fuzzCase(lenFuzz)
 		w.close()
 	}
+	subsidyTxProbe(o)
 }
